@@ -1,11 +1,27 @@
 """t_egconst: constants and pure kernels of the ExponentiatedGradient certificate (C08).
 
-Regenerates, from the source under test:
+Regenerates, from the source under test, as Gallina definitions over the primitives of FL.Saddle / FL.SaddleFit:
   * _PRECISION, _MIN_ITER                      (_constants.py)
   * the multiplier literal of eval_gap          (`for mul in [...]` in _lagrangian.py)
-  * _GapResult.gap as a Gallina expression      (`return max(self.L - self.L_low, self.L_high - self.L)`)
-and checks (fail closed) that eval_gap, the choice of the returned iterate and the break rule of
-ExponentiatedGradient.fit still have the shape the model Saddle.v follows.
+  * _GapResult.gap                              gap_of_src
+  * the tail of _Lagrangian._eval               eval_tail_src   (L, L_high)
+  * eval_gap                                    gap_init_src (arguments of _GapResult(...)), loop_step_src
+                                                (query handed to best_h, candidate, update of L_low),
+                                                loop_break_src (the early `break`), eval_gap_src
+  * ExponentiatedGradient.fit                   nu_src (which nu is used), keep_src (what an iteration appends
+                                                to Qs / gaps), stop_src (the break rule), select_src /
+                                                returned_src (best_iter_, best_gap_, weights_)
+props/C08.v states (by reflexivity, resp. one structural lemma for the loop) that these ARE the model's
+definitions.  Everything else the model relies on (statement frames, the linear program handed to scipy) is
+matched statement by statement; any shape this translator does not recognise raises (fail closed).
+
+Trusted reading of Python/numpy/pandas primitives (the only interpretation done here):
+  np.sum(a * b), np.dot(a, b), a.dot(b) -> rdot a b ;  np.sum(v) -> rsum v ;  v.max()/v.min() -> vmax/vmin ;
+  v - w, v + w, s * v -> vsub, vadd, vscale ;  max(a, b)/min(a, b) -> Qmaxq/Qminq ;
+  a < b, a <= b, a > b, a >= b on numbers -> Qltb a b, Qleb a b, Qltb b a, Qleb b a (Nat.ltb/Nat.leb on counters) ;
+  `for x in LIST: ...; if c: break` -> SaddleFit.for_break ;  series[series <= thr].index[-1] -> last_index_le thr.
+An assignment whose right-hand side is an arithmetic operation is wrapped in Qred (a change of representation
+only: Qred q == q), as in the model.
 """
 import ast
 from fractions import Fraction
@@ -17,9 +33,13 @@ LAGR = "fairlearn/reductions/_exponentiated_gradient/_lagrangian.py"
 EG = "fairlearn/reductions/_exponentiated_gradient/exponentiated_gradient.py"
 
 
+class Unsupported(ValueError):
+    pass
+
+
 def _q(x):
     if isinstance(x, bool) or not isinstance(x, (int, float)):
-        raise ValueError(f"not a number: {x!r}")
+        raise Unsupported(f"not a number: {x!r}")
     f = Fraction(repr(x)) if isinstance(x, float) else Fraction(x)
     return f"(({f.numerator})#{f.denominator})" if f < 0 else f"({f.numerator}#{f.denominator})"
 
@@ -31,7 +51,7 @@ def _module_consts(tree):
             v = n.value
             if isinstance(v, ast.Constant) and isinstance(v.value, (int, float)) and not isinstance(v.value, bool):
                 if n.targets[0].id in out:
-                    raise ValueError(f"{n.targets[0].id} assigned twice")
+                    raise Unsupported(f"{n.targets[0].id} assigned twice")
                 out[n.targets[0].id] = v.value
     return out
 
@@ -52,14 +72,14 @@ def _strip(body):
 def _find_class(tree, name):
     c = next((n for n in tree.body if isinstance(n, ast.ClassDef) and n.name == name), None)
     if c is None:
-        raise ValueError(f"class {name} not found")
+        raise Unsupported(f"class {name} not found")
     return c
 
 
 def _find_method(cls, name):
     f = [n for n in cls.body if isinstance(n, ast.FunctionDef) and n.name == name]
     if len(f) != 1:
-        raise ValueError(f"{cls.name}.{name}: expected exactly one definition")
+        raise Unsupported(f"{cls.name}.{name}: expected exactly one definition")
     return f[0]
 
 
@@ -74,7 +94,7 @@ def _gap_expr(e):
     if isinstance(e, ast.Call) and isinstance(e.func, ast.Name) and e.func.id == "max" and len(e.args) == 2 \
             and not e.keywords:
         return f"(Qmaxq {_gap_expr(e.args[0])} {_gap_expr(e.args[1])})"
-    raise ValueError(f"_GapResult.gap: unsupported expression {ast.unparse(e)!r}")
+    raise Unsupported(f"_GapResult.gap: unsupported expression {ast.unparse(e)!r}")
 
 
 def _norm(src_or_node):
@@ -87,11 +107,504 @@ def _expect(stmts, wanted, where):
     got = [ast.unparse(s) for s in stmts]
     if [_norm(s) for s in stmts] == [_norm(w) for w in wanted]:
         return
-    if got != wanted:
-        for i, (g, w) in enumerate(zip(got + ["<missing>"] * len(wanted), wanted + ["<extra>"] * len(got))):
-            if g == "<missing>" or w == "<extra>" or _norm(g) != _norm(w):
-                raise ValueError(f"{where}: statement {i} is {g!r}, expected {w!r}")
-        raise ValueError(f"{where}: unexpected statements")
+    for i, (g, w) in enumerate(zip(got + ["<missing>"] * len(wanted), wanted + ["<extra>"] * len(got))):
+        if g == "<missing>" or w == "<extra>" or _norm(g) != _norm(w):
+            raise Unsupported(f"{where}: statement {i} is {g!r}, expected {w!r}")
+    raise Unsupported(f"{where}: unexpected statements")
+
+
+# ---------------------------------------------------------------------------------------------
+# a small typed expression compiler: S = number (Q), V = vector (list Q), N = counter (nat), B = bool
+# ---------------------------------------------------------------------------------------------
+class Ex:
+    def __init__(self, env, where):
+        self.env = dict(env)          # ast.unparse(atom) -> (type, gallina)
+        self.where = where
+
+    def bad(self, node, why="unsupported expression"):
+        raise Unsupported(f"{self.where}: {why}: {ast.unparse(node)!r}")
+
+    def atom(self, node):
+        return self.env.get(ast.unparse(node))
+
+    def c(self, node):
+        """-> (type, text[, pending elementwise product])"""
+        a = self.atom(node)
+        if a is not None:
+            return a
+        if isinstance(node, ast.Constant) and isinstance(node.value, (int, float)) and not isinstance(node.value, bool):
+            return ("S", _q(node.value))
+        if isinstance(node, ast.UnaryOp) and isinstance(node.op, ast.USub):
+            t, x = self.c(node.operand)
+            if t == "S":
+                return ("S", f"(- {x})")
+            self.bad(node)
+        if isinstance(node, ast.UnaryOp) and isinstance(node.op, ast.Not):
+            t, x = self.c(node.operand)
+            if t == "B":
+                return ("B", f"(negb {x})")
+            self.bad(node, "`not` of a non-boolean")
+        if isinstance(node, ast.BinOp):
+            (tl, l), (tr, r) = self.c(node.left), self.c(node.right)
+            op = type(node.op)
+            if tl == "S" and tr == "S" and op in (ast.Add, ast.Sub, ast.Mult):
+                return ("S", f"({l} {'+' if op is ast.Add else '-' if op is ast.Sub else '*'} {r})")
+            if tl == "V" and tr == "V" and op in (ast.Add, ast.Sub):
+                return ("V", f"({'vadd' if op is ast.Add else 'vsub'} {l} {r})")
+            if tl == "V" and tr == "V" and op is ast.Mult:
+                return ("P", (l, r))           # elementwise product: only under np.sum
+            if op is ast.Mult and {tl, tr} == {"S", "V"}:
+                s, v = (l, r) if tl == "S" else (r, l)
+                return ("V", f"(vscale {s} {v})")
+            self.bad(node)
+        if isinstance(node, ast.Call) and not node.keywords:
+            f = ast.unparse(node.func)
+            args = node.args
+            if f in ("np.sum", "numpy.sum") and len(args) == 1:
+                t, x = self.c(args[0])
+                if t == "P":
+                    return ("S", f"(rdot {x[0]} {x[1]})")
+                if t == "V":
+                    return ("S", f"(rsum {x})")
+                self.bad(node)
+            if f in ("np.dot", "numpy.dot") and len(args) == 2:
+                (tl, l), (tr, r) = self.c(args[0]), self.c(args[1])
+                if tl == "V" and tr == "V":
+                    return ("S", f"(rdot {l} {r})")
+                self.bad(node)
+            if f in ("max", "min") and len(args) == 2:
+                (tl, l), (tr, r) = self.c(args[0]), self.c(args[1])
+                if tl == "S" and tr == "S":
+                    return ("S", f"({'Qmaxq' if f == 'max' else 'Qminq'} {l} {r})")
+                self.bad(node)
+            if f in ("np.max", "np.amax", "np.min", "np.amin") and len(args) == 1:
+                t, x = self.c(args[0])
+                if t == "V":
+                    return ("S", f"({'vmax' if 'max' in f else 'vmin'} {x})")
+                self.bad(node)
+            if isinstance(node.func, ast.Attribute) and node.func.attr in ("max", "min") and not args:
+                t, x = self.c(node.func.value)
+                if t == "V":
+                    return ("S", f"({'vmax' if node.func.attr == 'max' else 'vmin'} {x})")
+                self.bad(node)
+            if isinstance(node.func, ast.Attribute) and node.func.attr == "dot" and len(args) == 1:
+                (tl, l), (tr, r) = self.c(node.func.value), self.c(args[0])
+                if tl == "V" and tr == "V":
+                    return ("S", f"(rdot {l} {r})")
+                self.bad(node)
+            self.bad(node, "unsupported call")
+        if isinstance(node, ast.Compare) and len(node.ops) == 1:
+            (tl, l), (tr, r) = self.c(node.left), self.c(node.comparators[0])
+            op = type(node.ops[0])
+            if tl == tr and tl in ("S", "N") and op in (ast.Lt, ast.LtE, ast.Gt, ast.GtE):
+                if op in (ast.Gt, ast.GtE):
+                    l, r = r, l
+                strict = op in (ast.Lt, ast.Gt)
+                fn = {("S", True): "Qltb", ("S", False): "Qleb", ("N", True): "Nat.ltb", ("N", False): "Nat.leb"}
+                return ("B", f"({fn[tl, strict]} {l} {r})")
+            self.bad(node, "unsupported comparison")
+        if isinstance(node, ast.BoolOp):
+            parts = [self.c(v) for v in node.values]
+            if all(t == "B" for t, _ in parts):
+                j = " && " if isinstance(node.op, ast.And) else " || "
+                return ("B", "(" + j.join(x for _, x in parts) + ")")
+            self.bad(node)
+        self.bad(node)
+
+    def typed(self, node, want):
+        t, x = self.c(node)
+        if t != want:
+            self.bad(node, f"expected a value of kind {want}, got {t}")
+        return x
+
+
+def _is_arith(node):
+    return isinstance(node, ast.BinOp)
+
+
+class Block:
+    """straight-line statements over number-valued names -> a chain of Gallina lets"""
+
+    def __init__(self, ex, assignable):
+        self.ex = ex
+        self.assignable = dict(assignable)   # ast.unparse(target) -> Gallina name (may be (re)bound here)
+        self.lets = []
+
+    def _target(self, t):
+        key = ast.unparse(t)
+        if key not in self.assignable:
+            raise Unsupported(f"{self.ex.where}: assignment to {key!r} is not understood")
+        return key, self.assignable[key]
+
+    def _value(self, s):
+        """value assigned by a simple Assign / AugAssign, as Gallina text (number)"""
+        if isinstance(s, ast.Assign) and len(s.targets) == 1:
+            key, name = self._target(s.targets[0])
+            x = self.ex.typed(s.value, "S")
+            return key, name, (f"Qred {x}" if _is_arith(s.value) else x)
+        if isinstance(s, ast.AugAssign) and isinstance(s.op, (ast.Add, ast.Sub, ast.Mult)):
+            key, name = self._target(s.target)
+            if key not in self.ex.env:
+                raise Unsupported(f"{self.ex.where}: {key} updated before it is defined")
+            x = self.ex.typed(s.value, "S")
+            op = {ast.Add: "+", ast.Sub: "-", ast.Mult: "*"}[type(s.op)]
+            return key, name, f"Qred ({self.ex.env[key][1]} {op} {x})"
+        raise Unsupported(f"{self.ex.where}: unsupported statement {ast.unparse(s)!r}")
+
+    def stmt(self, s):
+        if isinstance(s, (ast.Assign, ast.AugAssign)):
+            key, name, val = self._value(s)
+            self.lets.append(f"let {name} := {val} in")
+            self.ex.env[key] = ("S", name)
+            return
+        if isinstance(s, ast.If):
+            cond = self.ex.typed(s.test, "B")
+            if len(s.body) != 1 or len(s.orelse) > 1:
+                raise Unsupported(f"{self.ex.where}: unsupported conditional {ast.unparse(s)!r}")
+            key, name, val = self._value(s.body[0])
+            if key not in self.ex.env and not s.orelse:
+                raise Unsupported(f"{self.ex.where}: {key} assigned on one branch only")
+            if s.orelse:
+                key2, _, val2 = self._value(s.orelse[0])
+                if key2 != key:
+                    raise Unsupported(f"{self.ex.where}: branches assign different names")
+            else:
+                val2 = self.ex.env[key][1]
+            self.lets.append(f"let {name} := if {cond} then {val} else {val2} in")
+            self.ex.env[key] = ("S", name)
+            return
+        raise Unsupported(f"{self.ex.where}: unsupported statement {ast.unparse(s)!r}")
+
+    def text(self, result, indent="  "):
+        return "\n".join(indent + l for l in self.lets + [result])
+
+
+# ---------------------------------------------------------------------------------------------
+def _eval_tail(lag):
+    """_Lagrangian._eval -> (Gallina body of eval_tail_src, names of the returned tuple)"""
+    ev = _strip(_find_method(lag, "_eval").body)
+    if [a.arg for a in _find_method(lag, "_eval").args.args] != ["self", "Q", "lambda_vec"]:
+        raise Unsupported("_Lagrangian._eval: unexpected signature")
+    if len(ev) < 4:
+        raise Unsupported("_Lagrangian._eval: unexpected statement structure")
+    _expect(ev[:2], ["if callable(Q):\n    error = self.obj.gamma(Q).iloc[0]\n    gamma = self.constraints.gamma(Q)\n"
+                     "else:\n    error = self.errors[Q.index].dot(Q)\n    gamma = self.gammas[Q.index].dot(Q)",
+                     "if self.opt_lambda:\n    lambda_vec = self.constraints.project_lambda(lambda_vec)"],
+            "_Lagrangian._eval")
+    ret = ev[-1]
+    if not (isinstance(ret, ast.Return) and isinstance(ret.value, ast.Tuple)
+            and all(isinstance(e, ast.Name) for e in ret.value.elts)):
+        raise Unsupported("_Lagrangian._eval: does not end in `return (names)`")
+    rnames = [e.id for e in ret.value.elts]
+    if rnames != ["L", "L_high", "gamma", "error"]:
+        raise Unsupported(f"_Lagrangian._eval: returns {rnames}, expected ['L', 'L_high', 'gamma', 'error']")
+    ex = Ex({"error": ("S", "error"), "gamma": ("V", "gamma"), "lambda_vec": ("V", "lambda_vec"),
+             "self.B": ("S", "B"), "self.constraints.bound()": ("V", "bound")}, "_Lagrangian._eval")
+    blk = Block(ex, {"L": "L", "L_high": "L_high", "max_constraint": "max_constraint"})
+    for s in ev[2:-1]:
+        blk.stmt(s)
+    for n in ("L", "L_high"):
+        if n not in ex.env:
+            raise Unsupported(f"_Lagrangian._eval: {n} is never assigned")
+    if ex.env["error"] != ("S", "error") or ex.env["gamma"] != ("V", "gamma"):
+        raise Unsupported("_Lagrangian._eval: error / gamma reassigned in the tail")
+    return blk.text("(L, L_high)"), rnames
+
+
+def _eval_gap(lag, gr, eval_ret):
+    fn = _find_method(lag, "eval_gap")
+    if [a.arg for a in fn.args.args] != ["self", "Q", "lambda_hat", "nu"]:
+        raise Unsupported("eval_gap: unexpected signature")
+    body = _strip(fn.body)
+    if len(body) != 4 or not isinstance(body[2], ast.For):
+        raise Unsupported("eval_gap: unexpected statement structure")
+    _expect(body[:1], ["(L, L_high, gamma, error) = self._eval(Q, lambda_hat)"], "eval_gap")
+    _expect(body[3:], ["return result"], "eval_gap")
+    # result = _GapResult(<L>, <L_low>, <L_high>, gamma, error)
+    init = _find_method(gr, "__init__")
+    if [a.arg for a in init.args.args] != ["self", "L", "L_low", "L_high", "gamma", "error"]:
+        raise Unsupported("_GapResult.__init__: unexpected signature")
+    _expect(_strip(init.body), ["self.L = L", "self.L_low = L_low", "self.L_high = L_high", "self.gamma = gamma",
+                                "self.error = error"], "_GapResult.__init__")
+    mk = body[1]
+    if not (isinstance(mk, ast.Assign) and ast.unparse(mk.targets[0]) == "result" and isinstance(mk.value, ast.Call)
+            and ast.unparse(mk.value.func) == "_GapResult" and not mk.value.keywords and len(mk.value.args) == 5
+            and all(isinstance(a, ast.Name) for a in mk.value.args)):
+        raise Unsupported(f"eval_gap: statement 1 is {ast.unparse(mk)!r}, expected result = _GapResult(five names)")
+    a = [x.id for x in mk.value.args]
+    if a[3:] != ["gamma", "error"] or any(x not in ("L", "L_high") for x in a[:3]):
+        raise Unsupported(f"eval_gap: unexpected arguments of _GapResult: {a}")
+    gap_init = f"({a[0]}, {a[1]}, {a[2]})"
+
+    loop = body[2]
+    if loop.orelse or not (isinstance(loop.target, ast.Name) and loop.target.id == "mul"):
+        raise Unsupported("eval_gap: unexpected for-loop header")
+    if not isinstance(loop.iter, (ast.List, ast.Tuple)) or not loop.iter.elts:
+        raise Unsupported("eval_gap: the multipliers are not a non-empty literal list")
+    muls = []
+    for e in loop.iter.elts:
+        if not (isinstance(e, ast.Constant) and isinstance(e.value, (int, float)) and not isinstance(e.value, bool)):
+            raise Unsupported("eval_gap: non-literal multiplier")
+        muls.append(e.value)
+    lb = _strip(loop.body)
+    if len(lb) < 3:
+        raise Unsupported("eval_gap loop: unexpected statement structure")
+    # (_, h_hat_idx) = self.best_h(<query>)
+    s0 = lb[0]
+    if not (isinstance(s0, ast.Assign) and isinstance(s0.targets[0], ast.Tuple) and len(s0.targets[0].elts) == 2
+            and all(isinstance(e, ast.Name) for e in s0.targets[0].elts) and s0.targets[0].elts[0].id == "_"
+            and isinstance(s0.value, ast.Call) and ast.unparse(s0.value.func) == "self.best_h"
+            and len(s0.value.args) == 1 and not s0.value.keywords):
+        raise Unsupported(f"eval_gap loop: statement 0 is {ast.unparse(s0)!r}, expected (_, idx) = self.best_h(query)")
+    idx = s0.targets[0].elts[1].id
+    query = Ex({"mul": ("S", "mul"), "lambda_hat": ("V", "lambda_hat")}, "eval_gap loop").typed(s0.value.args[0], "V")
+    # (L_low_mul, _, _, _) = self._eval(pd.Series({idx: 1.0}), lambda_hat)
+    s1 = lb[1]
+    ok = (isinstance(s1, ast.Assign) and isinstance(s1.targets[0], ast.Tuple)
+          and len(s1.targets[0].elts) == len(eval_ret) and all(isinstance(e, ast.Name) for e in s1.targets[0].elts)
+          and isinstance(s1.value, ast.Call) and ast.unparse(s1.value.func) == "self._eval"
+          and len(s1.value.args) == 2 and not s1.value.keywords)
+    if not ok:
+        raise Unsupported(f"eval_gap loop: statement 1 is {ast.unparse(s1)!r}, expected (x, _, _, _) = self._eval(.., ..)")
+    tn = [e.id for e in s1.targets[0].elts]
+    if tn[0] == "_" or any(n != "_" for n in tn[1:]) or eval_ret[0] != "L":
+        raise Unsupported(f"eval_gap loop: the candidate is not the first component (L) of _eval: {tn}")
+    cand = tn[0]
+    if _norm(ast.parse(ast.unparse(s1.value.args[0])).body[0]) != _norm(f"pd.Series({{{idx}: 1.0}})"):
+        raise Unsupported(f"eval_gap loop: candidate evaluated at {ast.unparse(s1.value.args[0])!r}, expected "
+                          f"pd.Series({{{idx}: 1.0}})")
+    if ast.unparse(s1.value.args[1]) != "lambda_hat":
+        raise Unsupported(f"eval_gap loop: candidate evaluated with multiplier {ast.unparse(s1.value.args[1])!r}, "
+                          "expected lambda_hat")
+    # update of result.L_low, then the break
+    brk = lb[-1]
+    if not (isinstance(brk, ast.If) and not brk.orelse and len(brk.body) == 1 and isinstance(brk.body[0], ast.Break)):
+        raise Unsupported(f"eval_gap loop: last statement is {ast.unparse(brk)!r}, expected `if ...: break`")
+    for s in lb[2:-1]:
+        if any(isinstance(n, (ast.Break, ast.Continue, ast.Return)) for n in ast.walk(s)):
+            raise Unsupported("eval_gap loop: control flow inside the update")
+    env = {cand: ("S", cand), "result.L_low": ("S", "L_low"), "result.L": ("S", "Lv"), "result.L_high": ("S", "high"),
+           "nu": ("S", "nu"), "_PRECISION": ("S", "precision"), "result.gap()": ("S", "(gap_of_src Lv L_low high)")}
+    ex = Ex(env, "eval_gap loop")
+    blk = Block(ex, {"result.L_low": "L_low"})
+    for s in lb[2:-1]:
+        blk.stmt(s)
+        ex.env["result.gap()"] = ("S", "(gap_of_src Lv L_low high)")
+    step = (f"  let {cand} := L_pt c (best_response H {query}) lam' in\n" + blk.text("L_low"))
+    cond = Ex(env, "eval_gap break").typed(brk.test, "B")
+    return muls, gap_init, step, cond
+
+
+def _fit(etree):
+    cls = _find_class(etree, "ExponentiatedGradient")
+    fit = _find_method(cls, "fit")
+    stmts = _strip(fit.body)
+    loops = [s for s in stmts if isinstance(s, ast.For)]
+    if len(loops) != 2 or ast.unparse(loops[0].target) != "t" or ast.unparse(loops[0].iter) != "range(0, self.max_iter)" \
+            or loops[0].orelse:
+        raise Unsupported("fit: unexpected loop structure")
+    lb = _strip(loops[0].body)
+    lsrc = [_norm(s) for s in lb]
+
+    def pos(src):
+        if lsrc.count(_norm(src)) != 1:
+            raise Unsupported(f"fit loop: expected exactly one statement {src!r}")
+        return lsrc.index(_norm(src))
+    p_q = pos("Q_EG = Qsum / Qsum.sum()")
+    p_ev = pos("result_EG = lagrangian.eval_gap(Q_EG, lambda_EG, self.nu)")
+    p_g = pos("gap_EG = result_EG.gap()")
+    p_lam = pos("lambda_EG = self.lambda_vecs_EG_.mean(axis=1)")
+    p_lp = pos("if t == 0 or not self.run_linprog_step:\n    gap_LP = np.inf\nelse:\n"
+               "    (Q_LP, self.lambda_vecs_LP_[t], result_LP) = lagrangian.solve_linprog(self.nu)\n"
+               "    gap_LP = result_LP.gap()")
+    p_th = pos("theta += eta * (gamma - self.constraints.bound())")
+
+    # ---- which nu: inside `if t == 0:`
+    t0 = [i for i, s in enumerate(lb) if isinstance(s, ast.If) and ast.unparse(s.test) == "t == 0"]
+    if len(t0) != 1 or lb[t0[0]].orelse:
+        raise Unsupported("fit loop: expected exactly one `if t == 0:` block without else")
+    first = _strip(lb[t0[0]].body)
+    if not first or not isinstance(first[0], ast.If):
+        raise Unsupported("fit loop: `if t == 0:` does not start with the choice of nu")
+    nuif = first[0]
+    if nuif.orelse or len(nuif.body) != 1 or not isinstance(nuif.body[0], ast.Assign) \
+            or ast.unparse(nuif.body[0].targets[0]) != "self.nu":
+        raise Unsupported(f"fit loop: unexpected choice of nu {ast.unparse(nuif)!r}")
+    test = ast.unparse(nuif.test)
+    if test == "self.nu is None":
+        nu_src = "match nu_param with None => auto | Some v => v end"
+    elif test in ("not self.nu", "self.nu is None or self.nu == 0", "self.nu is None or not self.nu"):
+        nu_src = "match nu_param with None => auto | Some v => if Qeqb v 0 then auto else v end"
+    else:
+        raise Unsupported(f"fit loop: the automatic nu is chosen under {test!r}, expected 'self.nu is None'")
+    n_assign = 0
+    for n in ast.walk(fit):
+        tg = []
+        if isinstance(n, ast.Assign):
+            for t in n.targets:
+                tg += list(t.elts) if isinstance(t, (ast.Tuple, ast.List)) else [t]
+        elif isinstance(n, (ast.AugAssign, ast.AnnAssign)):
+            tg = [n.target]
+        n_assign += sum(1 for t in tg if ast.unparse(t) == "self.nu")
+    if n_assign != 1:
+        raise Unsupported(f"fit: self.nu is assigned {n_assign} times, expected once")
+    if not (t0[0] < p_ev):
+        raise Unsupported("fit loop: nu is chosen after its first use")
+
+    # ---- what an iteration appends
+    keeps = [i for i, s in enumerate(lb) if isinstance(s, ast.If) and
+             any(isinstance(n, ast.Call) and ast.unparse(n.func) in ("Qs.append", "gaps.append") for n in ast.walk(s))]
+    if len(keeps) != 1:
+        raise Unsupported("fit loop: expected exactly one conditional appending to Qs / gaps")
+    kif = lb[keeps[0]]
+
+    def branch(stmts_, which):
+        got = {}
+        if len(stmts_) != 2:
+            raise Unsupported(f"fit loop: the {which} branch of the EG/LP choice has {len(stmts_)} statements")
+        for s in stmts_:
+            if not (isinstance(s, ast.Expr) and isinstance(s.value, ast.Call) and len(s.value.args) == 1
+                    and not s.value.keywords and isinstance(s.value.args[0], ast.Name)
+                    and ast.unparse(s.value.func) in ("Qs.append", "gaps.append")):
+                raise Unsupported(f"fit loop: unexpected statement {ast.unparse(s)!r} in the EG/LP choice")
+            got[ast.unparse(s.value.func)] = s.value.args[0].id
+        if set(got) != {"Qs.append", "gaps.append"}:
+            raise Unsupported(f"fit loop: the {which} branch does not append once to Qs and once to gaps")
+        qn = {"Q_EG": "Q_EG", "Q_LP": "(fst lp)"}
+        gn = {"gap_EG": "gap_EG", "gap_LP": "(snd lp)"}
+        if got["Qs.append"] not in qn or got["gaps.append"] not in gn:
+            raise Unsupported(f"fit loop: the {which} branch appends {got}")
+        uses_lp = got["Qs.append"] == "Q_LP" or got["gaps.append"] == "gap_LP"
+        return f"({qn[got['Qs.append']]}, {gn[got['gaps.append']]})", uses_lp
+    b_then, lp_then = branch(kif.body, "then")
+    b_else, lp_else = branch(kif.orelse, "else")
+    kt = kif.test
+    if not (isinstance(kt, ast.Compare) and len(kt.ops) == 1 and
+            {ast.unparse(kt.left), ast.unparse(kt.comparators[0])} == {"gap_EG", "gap_LP"}):
+        raise Unsupported(f"fit loop: the EG/LP choice tests {ast.unparse(kt)!r}")
+    ktest = Ex({"gap_EG": ("S", "gap_EG"), "gap_LP": ("S", "(snd lp)")}, "fit EG/LP choice").typed(kt, "B")
+    # gap_LP = np.inf when the linear program did not run
+    eg_left = ast.unparse(kt.left) == "gap_EG"
+    less = isinstance(kt.ops[0], (ast.Lt, ast.LtE))
+    inf_true = (eg_left and less) or (not eg_left and not less)
+    none_branch, none_lp = (b_then, lp_then) if inf_true else (b_else, lp_else)
+    if none_lp:
+        raise Unsupported("fit loop: the LP candidate is appended when the linear program did not run")
+    keep_src = (f"  match LP with\n  | None => {none_branch}\n"
+                f"  | Some lp => if {ktest} then {b_then} else {b_else}\n  end")
+    # Qs / gaps are touched by nothing else
+    for nm in ("Qs", "gaps"):
+        n_app = sum(1 for n in ast.walk(fit) if isinstance(n, ast.Call) and ast.unparse(n.func) == f"{nm}.append")
+        n_other = sum(1 for n in ast.walk(fit) if isinstance(n, ast.Call) and isinstance(n.func, ast.Attribute)
+                      and ast.unparse(n.func.value) == nm and n.func.attr != "append")
+        n_store = sum(1 for n in ast.walk(fit) if isinstance(n, (ast.Name, ast.Subscript)) and
+                      isinstance(getattr(n, "ctx", None), (ast.Store, ast.Del)) and
+                      ast.unparse(n.value if isinstance(n, ast.Subscript) else n) == nm)
+        if n_app != 2 or n_other != 0 or n_store != 1:
+            raise Unsupported(f"fit: {nm} is modified outside the EG/LP choice "
+                              f"({n_app} appends, {n_other} other calls, {n_store} stores)")
+    inits = [_norm(s) for s in stmts]
+    for need in ("gaps: list[float] = []", "Qs: list[pd.Series] = []"):
+        if inits.count(_norm(need)) != 1:
+            raise Unsupported(f"fit: expected exactly one statement {need!r} before the loop")
+
+    # ---- the break rule
+    brks = [i for i, s in enumerate(lb) if isinstance(s, ast.If) and
+            any(isinstance(n, ast.Break) for n in ast.walk(s))]
+    if len(brks) != 1 or any(isinstance(n, (ast.Break, ast.Continue, ast.Return)) for i, s in enumerate(lb)
+                             if i != brks[0] for n in ast.walk(s)):
+        raise Unsupported("fit loop: expected exactly one `if ...: break` and no other jump")
+    bif = lb[brks[0]]
+    if bif.orelse or len(_strip(bif.body)) != 1 or not isinstance(_strip(bif.body)[0], ast.Break):
+        raise Unsupported(f"fit loop: unexpected break statement {ast.unparse(bif)!r}")
+    stop = Ex({"gaps[t]": ("S", "(gaps t)"), "self.nu": ("S", "nu"), "t": ("N", "t"),
+               "_MIN_ITER": ("N", "min_iter")}, "fit break rule").typed(bif.test, "B")
+    if not (p_lam < p_q < p_ev < p_g < p_lp < keeps[0] < brks[0] < p_th):
+        raise Unsupported("fit loop: statements are not in the expected order "
+                          "(EG candidate, LP candidate, choice, break, update)")
+
+    # ---- what fit hands out
+    after = stmts[stmts.index(loops[0]) + 1:]
+    if len(after) < 5:
+        raise Unsupported("fit: statements after the loop are missing")
+    _expect(after[:1], ["gaps_series = pd.Series(gaps)"], "fit after the loop")
+    s1 = after[1]
+    ok = (isinstance(s1, ast.Assign) and ast.unparse(s1.targets[0]) == "gaps_best"
+          and isinstance(s1.value, ast.Subscript) and ast.unparse(s1.value.value) == "gaps_series"
+          and isinstance(s1.value.slice, ast.Compare) and len(s1.value.slice.ops) == 1
+          and ast.unparse(s1.value.slice.left) == "gaps_series")
+    if not ok:
+        raise Unsupported(f"fit: statement 1 after the loop is {ast.unparse(s1)!r}, expected "
+                          "gaps_best = gaps_series[gaps_series <= threshold]")
+    if not isinstance(s1.value.slice.ops[0], ast.LtE):
+        raise Unsupported(f"fit: the candidates are selected by {ast.unparse(s1.value.slice)!r}, expected `<=`")
+    thr = Ex({"gaps_series": ("V", "gaps"), "_PRECISION": ("S", "precision")}, "fit selection threshold") \
+        .typed(s1.value.slice.comparators[0], "S")
+    _expect(after[2:3], ["self.best_iter_ = gaps_best.index[-1]"], "fit after the loop")
+    select_src = f"last_index_le {thr} gaps 0 0"
+
+    def pick(s, target, where):
+        if not (isinstance(s, ast.Assign) and len(s.targets) == 1 and ast.unparse(s.targets[0]) == target):
+            raise Unsupported(f"fit: statement {where} after the loop is {ast.unparse(s)!r}, expected {target} = ...")
+        v = s.value
+        if isinstance(v, ast.Subscript) and ast.unparse(v.value) in ("gaps", "Qs"):
+            if ast.unparse(v.slice) != "self.best_iter_":
+                raise Unsupported(f"fit: {target} is taken at index {ast.unparse(v.slice)!r}, expected self.best_iter_")
+            return ast.unparse(v.value)
+        raise Unsupported(f"fit: {target} = {ast.unparse(v)!r} is not an element of gaps / Qs")
+    if pick(after[3], "self.best_gap_", 3) != "gaps":
+        raise Unsupported(f"fit: best_gap_ is not taken from gaps: {ast.unparse(after[3])!r}")
+    if pick(after[4], "self.weights_", 4) != "Qs":
+        raise Unsupported(f"fit: weights_ is not taken from Qs: {ast.unparse(after[4])!r}")
+    for s in after[5:]:
+        for n in ast.walk(s):
+            if isinstance(n, (ast.Assign, ast.AugAssign, ast.AnnAssign)):
+                tg = n.targets if isinstance(n, ast.Assign) else [n.target]
+                if any(ast.unparse(t) in ("self.best_gap_", "self.best_iter_", "self.weights_") for t in tg):
+                    raise Unsupported(f"fit: {ast.unparse(n)!r} overwrites a returned attribute")
+    returned_src = ("  let best_iter_ := select_src gaps in\n  let best_gap_ := nth best_iter_ gaps 0 in\n"
+                    "  let weights_ := nth best_iter_ Qs d in\n  (best_iter_, best_gap_, weights_)")
+    _expect(after[5:8], ["self._hs = lagrangian.hs",
+                         "for h_idx in self._hs.index:\n    if h_idx not in self.weights_.index:\n"
+                         "        self.weights_.at[h_idx] = 0.0",
+                         "self.last_iter_ = len(Qs) - 1"], "fit after the selection")
+    return nu_src, keep_src, stop, select_src, returned_src
+
+
+def _linprog(lag):
+    """the linear program of solve_linprog, matched statement by statement (the `method=` string is free)"""
+    fn = _find_method(lag, "solve_linprog")
+    body = _strip(fn.body)
+    if len(body) < 10:
+        raise Unsupported("solve_linprog: unexpected statement structure")
+    _expect(body[:8], ["n_hs = len(self.hs)",
+                       "n_constraints = len(self.constraints.index)",
+                       "if self.last_linprog_n_hs == n_hs:\n    return self.last_linprog_result",
+                       "c = np.concatenate((self.errors, [self.B]))",
+                       "A_ub = np.concatenate((self.gammas.sub(self.constraints.bound(), axis=0), "
+                       "-np.ones((n_constraints, 1))), axis=1)",
+                       "b_ub = np.zeros(n_constraints)",
+                       "A_eq = np.concatenate((np.ones((1, n_hs)), np.zeros((1, 1))), axis=1)",
+                       "b_eq = np.ones(1)"], "solve_linprog")
+    call = body[8]
+    ok = (isinstance(call, ast.Assign) and ast.unparse(call.targets[0]) == "result" and isinstance(call.value, ast.Call)
+          and ast.unparse(call.value.func) == "opt.linprog" and [ast.unparse(a) for a in call.value.args] == ["c"])
+    if not ok:
+        raise Unsupported(f"solve_linprog: statement 8 is {ast.unparse(call)!r}, expected result = opt.linprog(c, ...)")
+    kw = {k.arg: k.value for k in call.value.keywords}
+    if set(kw) != {"A_ub", "b_ub", "A_eq", "b_eq", "method"} or \
+            any(ast.unparse(kw[k]) != k for k in ("A_ub", "b_ub", "A_eq", "b_eq")) or \
+            not (isinstance(kw["method"], ast.Constant) and isinstance(kw["method"].value, str)):
+        raise Unsupported(f"solve_linprog: unexpected arguments of linprog (bounds must be the default): "
+                          f"{ast.unparse(call)!r}")
+    _expect(body[9:10], ["Q = pd.Series(result.x[:-1], self.hs.index)"], "solve_linprog")
+    tail = body[-2:]
+    _expect(tail, ["self.last_linprog_result = (Q, lambda_vec, self.eval_gap(Q, lambda_vec, nu))",
+                   "return self.last_linprog_result"], "solve_linprog")
+    for s in body[10:-2]:
+        for n in ast.walk(s):
+            if isinstance(n, ast.Name) and isinstance(n.ctx, ast.Store) and n.id == "Q":
+                raise Unsupported("solve_linprog: Q is reassigned after the primal solve")
 
 
 def translate(repo: Path):
@@ -99,105 +612,72 @@ def translate(repo: Path):
     consts = _module_consts(ast.parse((repo / CONST).read_text()))
     for k in ("_PRECISION", "_MIN_ITER"):
         if k not in consts:
-            raise ValueError(f"{k} not found in {CONST}")
+            raise Unsupported(f"{k} not found in {CONST}")
     prec, min_iter = consts["_PRECISION"], consts["_MIN_ITER"]
     if not isinstance(min_iter, int) or min_iter < 0:
-        raise ValueError("_MIN_ITER is not a natural number")
+        raise Unsupported("_MIN_ITER is not a natural number")
     if not (isinstance(prec, float) and prec >= 0):
-        raise ValueError("_PRECISION is not a non-negative float")
+        raise Unsupported("_PRECISION is not a non-negative float")
 
     ltree = ast.parse((repo / LAGR).read_text())
     lag = _find_class(ltree, "_Lagrangian")
     # the constants must come from _constants (not shadowed in the module)
     if "_PRECISION" in _module_consts(ltree):
-        raise ValueError("_PRECISION shadowed in _lagrangian.py")
-    eg_fn = _find_method(lag, "eval_gap")
-    if [a.arg for a in eg_fn.args.args] != ["self", "Q", "lambda_hat", "nu"]:
-        raise ValueError("eval_gap: unexpected signature")
-    body = _strip(eg_fn.body)
-    if len(body) != 4 or not isinstance(body[2], ast.For):
-        raise ValueError("eval_gap: unexpected statement structure")
-    _expect(body[:2], ["(L, L_high, gamma, error) = self._eval(Q, lambda_hat)",
-                       "result = _GapResult(L, L, L_high, gamma, error)"], "eval_gap")
-    _expect(body[3:], ["return result"], "eval_gap")
-    loop = body[2]
-    if loop.orelse or not (isinstance(loop.target, ast.Name) and loop.target.id == "mul"):
-        raise ValueError("eval_gap: unexpected for-loop header")
-    if not isinstance(loop.iter, (ast.List, ast.Tuple)) or not loop.iter.elts:
-        raise ValueError("eval_gap: the multipliers are not a non-empty literal list")
-    muls = []
-    for e in loop.iter.elts:
-        if not (isinstance(e, ast.Constant) and isinstance(e.value, (int, float)) and not isinstance(e.value, bool)):
-            raise ValueError("eval_gap: non-literal multiplier")
-        muls.append(e.value)
-    _expect(_strip(loop.body),
-            ["(_, h_hat_idx) = self.best_h(mul * lambda_hat)",
-             "(L_low_mul, _, _, _) = self._eval(pd.Series({h_hat_idx: 1.0}), lambda_hat)",
-             "if L_low_mul < result.L_low:\n    result.L_low = L_low_mul",
-             "if result.gap() > nu + _PRECISION:\n    break"], "eval_gap loop")
-
+        raise Unsupported("_PRECISION shadowed in _lagrangian.py")
     gr = _find_class(ltree, "_GapResult")
-    init = _strip(_find_method(gr, "__init__").body)
-    _expect(init, ["self.L = L", "self.L_low = L_low", "self.L_high = L_high", "self.gamma = gamma",
-                   "self.error = error"], "_GapResult.__init__")
-    if [a.arg for a in _find_method(gr, "__init__").args.args] != ["self", "L", "L_low", "L_high", "gamma", "error"]:
-        raise ValueError("_GapResult.__init__: unexpected signature")
     gap_body = _strip(_find_method(gr, "gap").body)
     if len(gap_body) != 1 or not isinstance(gap_body[0], ast.Return) or gap_body[0].value is None:
-        raise ValueError("_GapResult.gap: body is not a single return")
+        raise Unsupported("_GapResult.gap: body is not a single return")
     gap_src = _gap_expr(gap_body[0].value)
 
-    # tail of _eval: L and L_high
-    ev = _strip(_find_method(lag, "_eval").body)
-    tail = [ast.unparse(s) for s in ev[-6:]]
-    tail_n = [_norm(s) for s in ev[-6:]]
-    want_tail = ["if self.opt_lambda:\n    lambda_vec = self.constraints.project_lambda(lambda_vec)",
-                 "L = error + np.sum(lambda_vec * (gamma - self.constraints.bound()))",
-                 "max_constraint = (gamma - self.constraints.bound()).max()",
-                 "L_high = error",
-                 "if max_constraint > 0:\n    L_high += self.B * max_constraint",
-                 "return (L, L_high, gamma, error)"]
-    if tail_n != [_norm(w) for w in want_tail]:
-        bad = next(i for i, (a, b) in enumerate(zip(tail_n, want_tail)) if a != _norm(b)) if len(tail) == 6 else 0
-        raise ValueError(f"_Lagrangian._eval: tail statement {bad} is {tail[bad] if tail else None!r}, "
-                         f"expected {want_tail[bad]!r}")
+    tail_src, eval_ret = _eval_tail(lag)
+    muls, gap_init, step_src, break_src = _eval_gap(lag, gr, eval_ret)
+    _linprog(lag)
 
-    # fit: break rule and choice of the returned iterate
     etree = ast.parse((repo / EG).read_text())
     if any(k in _module_consts(etree) for k in ("_PRECISION", "_MIN_ITER")):
-        raise ValueError("constants shadowed in exponentiated_gradient.py")
-    fit = _find_method(_find_class(etree, "ExponentiatedGradient"), "fit")
-    stmts = _strip(fit.body)
-    loops = [s for s in stmts if isinstance(s, ast.For)]
-    if len(loops) != 2 or ast.unparse(loops[0].target) != "t" or ast.unparse(loops[0].iter) != "range(0, self.max_iter)":
-        raise ValueError("fit: unexpected loop structure")
-    lsrc = [_norm(s) for s in _strip(loops[0].body)]
-    for need in ["if gaps[t] < self.nu and t >= _MIN_ITER:\n    break",
-                 "if gap_EG < gap_LP:\n    Qs.append(Q_EG)\n    gaps.append(gap_EG)\nelse:\n    Qs.append(Q_LP)\n"
-                 "    gaps.append(gap_LP)",
-                 "gap_EG = result_EG.gap()",
-                 "result_EG = lagrangian.eval_gap(Q_EG, lambda_EG, self.nu)",
-                 "Q_EG = Qsum / Qsum.sum()"]:
-        if lsrc.count(_norm(need)) != 1:
-            raise ValueError(f"fit loop: expected exactly one statement {need!r}")
-    after = [ast.unparse(s) for s in stmts[stmts.index(loops[0]) + 1:]]
-    want_after = ["gaps_series = pd.Series(gaps)",
-                  "gaps_best = gaps_series[gaps_series <= gaps_series.min() + _PRECISION]",
-                  "self.best_iter_ = gaps_best.index[-1]",
-                  "self.best_gap_ = gaps[self.best_iter_]",
-                  "self.weights_ = Qs[self.best_iter_]"]
-    after_n = [_norm(s) for s in stmts[stmts.index(loops[0]) + 1:]]
-    if after_n[:5] != [_norm(w) for w in want_after]:
-        bad = next((i for i, (a, b) in enumerate(zip(after_n, want_after)) if a != _norm(b)), 0)
-        raise ValueError(f"fit: statement {bad} after the loop is {after[bad] if after else None!r}, "
-                         f"expected {want_after[bad]!r}")
+        raise Unsupported("constants shadowed in exponentiated_gradient.py")
+    nu_src, keep_src, stop_src, select_src, returned_src = _fit(etree)
 
     text = ("(* GENERATED by translators/t_egconst.py from " + CONST + ", " + LAGR + " and " + EG +
             " -- do not edit *)\n"
-            "From Coq Require Import QArith List.\nFrom FL Require Import Num.\nImport ListNotations.\n"
-            "Open Scope Q_scope.\n"
+            "From Coq Require Import QArith List Bool.\nFrom FL Require Import Num Saddle SaddleFit.\n"
+            "Import ListNotations.\nOpen Scope Q_scope.\n"
             f"Definition precision : Q := {_q(prec)}.\n"
             f"Definition min_iter : nat := {min_iter}%nat.\n"
             f"Definition muls : list Q := [{'; '.join(_q(m) for m in muls)}].\n"
-            f"Definition gap_of_src (Lv low high : Q) : Q := {gap_src}.\n")
+            f"Definition gap_of_src (Lv low high : Q) : Q := {gap_src}.\n"
+            "(* _Lagrangian._eval after error / gamma / the projection: (L, L_high) *)\n"
+            "Definition eval_tail_src (B error : Q) (lambda_vec gamma bound : list Q) : Q * Q :=\n"
+            f"{tail_src}.\n"
+            "(* eval_gap: the (L, L_low, L_high) given to _GapResult *)\n"
+            f"Definition gap_init_src (L L_high : Q) : Q * Q * Q := {gap_init}.\n"
+            "(* eval_gap: one pass of the loop body before the break test; lam' = the multiplier _eval uses *)\n"
+            "Definition loop_step_src (H : list hyp) (c : list Q) (nu Lv high : Q) (lambda_hat lam' : list Q)\n"
+            "    (mul L_low : Q) : Q :=\n"
+            f"{step_src}.\n"
+            "Definition loop_break_src (nu Lv high L_low : Q) : bool :=\n"
+            f"  {break_src}.\n"
+            "(* eval_gap(Q, lambda_hat, nu).gap() *)\n"
+            "Definition eval_gap_src (H : list hyp) (c : list Q) (B nu : Q) (Qw lambda_hat lam' : list Q) : Q :=\n"
+            "  let ev := eval_tail_src B (err H Qw) lam' (gammaQ H c Qw) c in\n"
+            "  let init := gap_init_src (fst ev) (snd ev) in\n"
+            "  let Lv := fst (fst init) in\n"
+            "  let high := snd init in\n"
+            "  gap_of_src Lv (for_break (loop_step_src H c nu Lv high lambda_hat lam') (loop_break_src nu Lv high)\n"
+            "                           muls (snd (fst init))) high.\n"
+            "(* fit: the threshold used (nu_param = the constructor argument, auto = the automatic value) *)\n"
+            "Definition nu_src (nu_param : option Q) (auto : Q) : Q :=\n"
+            f"  {nu_src}.\n"
+            "(* fit: the pair appended to (Qs, gaps) by one iteration; LP = None when solve_linprog did not run *)\n"
+            "Definition keep_src {A : Type} (Q_EG : A) (gap_EG : Q) (LP : option (A * Q)) : A * Q :=\n"
+            f"{keep_src}.\n"
+            "(* fit: the break rule at iteration t *)\n"
+            "Definition stop_src (gaps : nat -> Q) (nu : Q) (t : nat) : bool :=\n"
+            f"  {stop_src}.\n"
+            "(* fit: best_iter_, best_gap_, weights_ *)\n"
+            "Definition select_src (gaps : list Q) : nat :=\n"
+            f"  {select_src}.\n"
+            "Definition returned_src {A : Type} (d : A) (gaps : list Q) (Qs : list A) : nat * Q * A :=\n"
+            f"{returned_src}.\n")
     return {"Gen_egconst.v": text}
